@@ -38,10 +38,16 @@ fn run_history(out: &mut Shards, start: u64, hist: &[Raw], takes: &[i64], kind: 
         let take = takes[i];
         let mut outs: Vec<Value> = Vec::new();
         let mut ended = false;
-        {
+        let mut runaway = false;
+        // a panic in the code under test is data: record it and end this history
+        let step = std::panic::catch_unwind(std::panic::AssertUnwindSafe(|| {
             let mut it = sm.process(to_confirm(start, *r));
             loop {
                 if take >= 0 && outs.len() as i64 >= take {
+                    break;
+                }
+                if outs.len() > 100_000 {
+                    runaway = true;
                     break;
                 }
                 match it.next() {
@@ -60,6 +66,11 @@ fn run_history(out: &mut Shards, start: u64, hist: &[Raw], takes: &[i64], kind: 
                 }
             }
             // iterator dropped here (possibly early)
+        }));
+        if step.is_err() || runaway {
+            out.ev(json!({"ev": "panic", "t": r.t, "m": r.m, "o": if r.ack {"ack"} else {"nack"},
+                          "what": if runaway { "iterator did not end within 100000 items" } else { "panic" }}));
+            return;
         }
         out.ev(json!({"ev": "proc", "t": r.t, "m": r.m, "o": if r.ack {"ack"} else {"nack"},
                       "take": take, "ended": ended, "outs": outs}));
